@@ -1114,8 +1114,10 @@ def explain_translate(ck: Ck, keys: set) -> None:
 LEMMA_EXPLAINED_BY = {
     'from_angle_orthonormal': ('from-angle-not-orthonormal',), 'from_angle_det_one': ('from-angle-determinant',),
     'from_angle_obj_eq': ('value-mismatch',), 'from_axis_rotation': ('from_roll-formula', 'from_pitch-formula', 'from_yaw-formula'),
-    'from_angle_convention': ('convention-',), 'axis_fixed': ('from_roll-formula', 'from_pitch-formula', 'from_yaw-formula'),
-    'handedness': ('from_roll-formula', 'from_pitch-formula', 'from_yaw-formula'),
+    # axis_fixed / handedness rotate the unit vectors with the generated vec_rot: a wrong _vec_rot breaks them too
+    'from_angle_convention': ('convention-',),
+    'axis_fixed': ('from_roll-formula', 'from_pitch-formula', 'from_yaw-formula', 'assoc-vec-matrix', 'value-mismatch:Vec'),
+    'handedness': ('from_roll-formula', 'from_pitch-formula', 'from_yaw-formula', 'assoc-vec-matrix', 'value-mismatch:Vec'),
     'mat_mul_assoc': ('assoc-matrix',), 'vec_rot_assoc': ('assoc-vec-matrix',), 'mat_mul_I_l': ('assoc-matrix', 'value-mismatch:Matrix'),
     'mat_mul_I_r': ('assoc-matrix', 'value-mismatch:Matrix'), 'vec_rot_I': ('assoc-vec-matrix', 'value-mismatch:Vec'),
     'det_mul': ('assoc-matrix', 'value-mismatch:Matrix'), 'transpose_involutive': ('transpose-formula',),
